@@ -173,7 +173,7 @@ def run(ctx):
               ("bigstr", a, n, [UNIT, (3, 2, 1)], 0.5), ("bigint", a, n, [UNIT, (1, 3, 2)], 0.5), ("str", 3, 2, [UNIT, (2, 1, 3)], 1.0)]
     if not quick:
         more = [UNIT, (2, 1, 3), (1, 3, 2), (3, 2, 1)]
-        design(ctx, 3, 4, [UNIT, (2, 1, 3)], label="alphabet=3 len<=4")
+        design(ctx, 3, 4, [UNIT], label="alphabet=3 len<=4 unit costs")
         design(ctx, 2, 4, more + COSTS_14, label="alphabet=2 len<=4")
         groups += [("str", 3, 4, [UNIT], 1.0), ("str", 3, 4, [(2, 1, 3)], 0.5), ("mixed", 3, 3, [UNIT], 1.0),
                    ("int", 3, 4, [UNIT, (2, 1, 3)], 0.15), ("str", 2, 4, more + COSTS_14, 1.0), ("bigstr", 3, 4, [UNIT], 0.2),
@@ -195,7 +195,7 @@ def run(ctx):
                 return tr
             ctx.selftest_corrupt("EditDistance_Trace", pick[len(pick) // 2], corrupt, constants=trace_constants(alpha, mlen))
             selftest = True
-    longs = long_cases(ctx, 150 if quick else 3000)
+    longs = long_cases(ctx, 400 if quick else 5000)
     good = judge(ctx, longs, E.run_pairs(longs), 4, 10, "seeded pairs of length 5-10 (beyond the TLC bounds)")
     if good:
         ctx.sample({"group": "long", "trace": good[len(good) // 2]}, limit=5)
